@@ -240,6 +240,11 @@ func genFaults(rng *rand.Rand, seed int64) *Scenario {
 		}
 		// the health-check threshold is not the refresh-failure threshold (three, whatever the configuration says)
 		is.MaxFail = []int{0, 0, 1, 5, 10}[rng.Intn(5)]
+		// a demotion callback that takes its time (no stop call in this generator: the stop budget assumes it returns at once;
+		// a single instance: a demotion noticed by the watch loop would run the callback in that loop and suspend the candidate)
+		if n == 1 {
+			is.DemoteSleep = []time.Duration{0, 300 * ms, 1200 * ms}[rng.Intn(3)]
+		}
 		sc.Insts = append(sc.Insts, is)
 		sc.Steps = append(sc.Steps, Step{At: time.Duration(i-1) * 30 * ms, Kind: "start", Inst: i})
 	}
@@ -309,6 +314,7 @@ func genHealth(rng *rand.Rand, seed int64) *Scenario {
 	if rng.Intn(3) == 0 {
 		is.Promote = "block"
 	}
+	slowDemote := []time.Duration{0, 0, 300 * ms, 1200 * ms}[rng.Intn(4)]
 	if rng.Intn(3) == 0 {
 		// isolated transient failures of the refresh itself on some ticks (the leader's k-th store operation is its k-th
 		// refresh): the health count and the refresh-failure count are separate
@@ -321,11 +327,17 @@ func genHealth(rng *rand.Rand, seed int64) *Scenario {
 	}
 	sc.Insts = append(sc.Insts, is)
 	sc.Steps = append(sc.Steps, Step{At: 0, Kind: "start", Inst: 1})
+	alone := true
 	if rng.Intn(2) == 0 {
 		sc.Insts = append(sc.Insts, baseInst(2, h))
 		sc.Steps = append(sc.Steps, Step{At: 10 * ms, Kind: "start", Inst: 2})
+		alone = false
 	}
-	if rng.Intn(3) == 0 {
+	if alone && rng.Intn(3) > 0 {
+		// a demotion callback that takes its time: every demotion here comes from the heartbeat loop (a demotion noticed
+		// by the watch loop would run the callback in that loop and suspend the candidate for as long)
+		sc.Insts[0].DemoteSleep = slowDemote
+	} else if rng.Intn(3) == 0 {
 		// terms that end for another reason (the record is removed from outside) in the middle of a run of unhealthy results
 		for j := 0; j < 1+rng.Intn(2); j++ {
 			sc.Steps = append(sc.Steps, Step{At: 2*h + time.Duration(rng.Int63n(int64(time.Duration(ticks)*h)))/2*2 + 1, Kind: "extdelete", Key: "g"})
